@@ -298,7 +298,7 @@ def _show(v):
     if isinstance(v, (bytes, bytearray)):
         return {"__bytes__": list(v), "mutable": isinstance(v, bytearray)}
     if isinstance(v, memoryview):
-        return {"__bytes__": list(bytes(v)), "mutable": False}
+        return {"__bytes__": list(bytes(v)), "mutable": False, "memoryview": True}
     if isinstance(v, (int, bool, str)) or v is None:
         return v
     if isinstance(v, (list, tuple)):
@@ -312,7 +312,24 @@ def _show(v):
 def unshow(v):
     if isinstance(v, dict) and "__bytes__" in v:
         b = bytes(v["__bytes__"])
+        if v.get("memoryview"):
+            return memoryview(b)
         return bytearray(b) if v.get("mutable") else b
+    if isinstance(v, dict) and "__class__" in v:
+        import importlib
+        parts = v["__class__"].split(".")
+        for cut in range(len(parts) - 1, 0, -1):
+            try:
+                obj = importlib.import_module(".".join(parts[:cut]))
+                for p in parts[cut:]:
+                    obj = getattr(obj, p)
+                break
+            except Exception:
+                continue
+        new = object.__new__(obj)
+        for k, x in v["fields"].items():
+            new.__dict__[k] = unshow(x)
+        return new
     if isinstance(v, list):
         return [unshow(x) for x in v]
     return v
